@@ -14,7 +14,7 @@ from ..domains.lin import Lin, Prover, expr_to_lin
 from ..ir import AnalysisError, Value
 from ..paths import fmt, ptr_parts, strip_casts, eval_concrete, NoValue
 
-UNMODELLED_STRING_FUNCS = ("strlen", "strnlen", "strspn", "strcspn", "strpbrk", "strstr", "memchr", "strtol",
+UNMODELLED_STRING_FUNCS = ("strlen", "strnlen", "strpbrk", "strstr", "memchr", "strtol",
                            "strtoul", "sscanf", "strrchr")
 
 
@@ -23,18 +23,42 @@ UNMODELLED_STRING_FUNCS = ("strlen", "strnlen", "strspn", "strcspn", "strpbrk", 
 # ---------------------------------------------------------------------------------------------
 
 def pkey(v, m):
-    """(root name, constant offset) of a pointer value or None."""
-    try:
-        p = flow.resolve_ptr(v, m)
-    except AnalysisError:
-        return None
-    if p.var:
-        return None
-    r = p.root
-    if r.k in ("inst", "arg"):
-        return (r.name, p.off)
-    if r.k == "null":
-        return ("null", p.off)
+    """(root name, constant offset) of a pointer value or None. A GEP with a variable index is its own root
+    (the typestate attaches facts to it when the index is a strspn/strcspn result)."""
+    off = 0
+    for _ in range(64):
+        if v.k == "arg":
+            return (v.name, off)
+        if v.k == "null":
+            return ("null", off)
+        if v.k != "inst":
+            return None
+        i = v.inst
+        if i is None:
+            return None
+        if i.op == "getelementptr":
+            if i.get("var_offs"):
+                return (i.name, off)
+            if "off" not in i.d:
+                return None
+            off += i["off"]
+            v = i.ops[0]
+            continue
+        if i.op == "bitcast":
+            v = i.ops[0]
+            continue
+        return (i.name, off)
+    return None
+
+
+def literal_of(v, m):
+    """String literal a pointer operand refers to (global constant data), or None."""
+    if v.k == "cexpr" and v.d["op"] in ("getelementptr", "bitcast"):
+        v = v.cexpr_ops()[0]
+    if v.k == "global":
+        g = m.globals.get(v.name)
+        if g and g.get("init", {}).get("k") == "cdata":
+            return "".join(chr(c) for c in g["init"]["elems"] if c)
     return None
 
 
@@ -109,6 +133,8 @@ def cond_facts(c, m):
             if k:
                 if (b.sval if b.ty != "i8" else b.uval) != 0:
                     eq_t.append(("nonnul", k[0], k[1]))
+                    if (b.sval if b.ty != "i8" else b.uval) == 10:
+                        eq_t.append(("isnl",))
                 else:
                     eq_f.append(("nonnul", k[0], k[1]))
         else:
@@ -155,6 +181,7 @@ class Cursor:
         self.str_arg, self.cur_arg = str_arg, cur_arg
         self.findings = []      # (rule, inst, ok, detail)
         self.n_loads = self.n_advances = 0
+        self.span_calls = {}
 
     def gep_alias(self, S, i):
         """A GEP / bitcast result is a new SSA name for root+off: copy facts."""
@@ -209,6 +236,33 @@ class Cursor:
                 S.add(("src", i.name))
                 if c.is_const_int() and c.uval != 0:
                     S.add(("chr", i.name))
+                if c.is_const_int() and c.uval == ord(":"):
+                    S.add(("no-nl",))           # the 'address:' prefix of this line has been looked for
+            elif i.op == "call" and i.callee in ("strspn", "strcspn"):
+                k = pkey(i.args[0], m)
+                if check:
+                    self.n_advances += 1
+                    ok = k is not None and ("instr", k[0], k[1]) in S
+                    self.findings.append(("H1.scan-start-in-string", i, ok,
+                                          "%s starts at %s%+d, %s" % (i.callee, k[0] if k else "?", k[1] if k else 0,
+                                                                         "inside the string" if ok else "not known to be inside the string")))
+                lit = literal_of(i.args[1], m)
+                if i.callee == "strspn" and (lit is None or "\n" in lit):
+                    S.discard(("no-nl",))       # may have skipped over a newline
+                self.span_calls[i.name] = k
+            elif i.op == "getelementptr" and i.get("var_offs"):
+                # s + strspn(s, ...) stays inside the string (the span never crosses the NUL)
+                vo = i["var_offs"]
+                if len(vo) == 1 and vo[0][1] == 1:
+                    idx = Value(vo[0][0], self.fn)
+                    src = idx.inst
+                    while src is not None and src.op in ("zext", "sext", "trunc"):
+                        src = src.ops[0].inst
+                    base = pkey(i.ops[0], m)
+                    if src is not None and src.op == "call" and src.callee in ("strspn", "strcspn") and \
+                            self.span_calls.get(src.name) == base and base is not None and i.get("off", 0) == 0:
+                        if ("instr", base[0], base[1]) in S:
+                            S.add(("instr", i.name, 0))
             elif i.op == "call" and i.callee in UNMODELLED_STRING_FUNCS:
                 raise AnalysisError("string function %s is not modelled by the cursor typestate" % i.callee)
             S = close(S)
@@ -220,8 +274,12 @@ class Cursor:
         out = {}
         if t.op == "br" and t.cond is not None:
             tf, ff = cond_facts(t.cond, self.m)
-            out.setdefault(t.succs[0], []).append(close(S | set(tf)))
-            out.setdefault(t.succs[1], []).append(close(S | set(ff)))
+            for succ, facts in ((t.succs[0], tf), (t.succs[1], ff)):
+                st = close((S | set(facts)) - ({("no-nl",)} if ("isnl",) in facts else set()))
+                # an edge that needs a pointer to be NULL and non-NULL at once is infeasible
+                if any(f[0] == "null" and ("nnp", f[1]) in st for f in st):
+                    continue
+                out.setdefault(succ, []).append(st)
         else:
             for s in (t.succs or []):
                 out.setdefault(s, []).append(S)
@@ -258,33 +316,38 @@ class Cursor:
         return S2
 
     def run(self):
+        """Forward dataflow, partitioned on the 'no newline pending' bit (trace partitioning on one boolean, so that
+        'came here over a newline' and 'came here from the caller with a possibly NULL s' are not merged)."""
         fn = self.fn
-        IN = {fn.entry.name: close({("src", self.str_arg)})}
-        work = [fn.entry]
+        NL = ("no-nl",)
+        st0 = close({("src", self.str_arg), NL})
+        IN = {(fn.entry.name, True): st0}
+        work = [(fn.entry, True)]
         iters = 0
         while work:
             iters += 1
-            if iters > 2000:
+            if iters > 4000:
                 raise AnalysisError("typestate dataflow did not converge")
-            blk = work.pop()
-            S = self.transfer(blk, IN[blk.name], False)
+            blk, part = work.pop()
+            S = self.transfer(blk, IN[(blk.name, part)], False)
             for sname, states in self.edge_states(blk, S).items():
                 sb = fn.blocks[sname]
                 for st in states:
                     st2 = close(self.phi_rename(sb, blk, st))
-                    # facts about values not dominating... SSA names are unique so stale facts are harmless
-                    if sname not in IN:
-                        IN[sname] = st2
-                        work.append(sb)
+                    key = (sname, NL in st2)
+                    if key not in IN:
+                        IN[key] = st2
+                        work.append((sb, key[1]))
                     else:
-                        new = IN[sname] & st2
-                        if new != IN[sname]:
-                            IN[sname] = new
-                            work.append(sb)
+                        new = IN[key] & st2
+                        if new != IN[key]:
+                            IN[key] = new
+                            work.append((sb, key[1]))
         self.IN = IN
         for blk in fn.order:
-            if blk.name in IN:
-                self.transfer(blk, IN[blk.name], True)
+            for part in (True, False):
+                if (blk.name, part) in IN:
+                    self.transfer(blk, IN[(blk.name, part)], True)
         return IN
 
 
@@ -297,14 +360,14 @@ def check_get_byte(chk, m):
     IN = cur.run()
     seen = set()
     for rule, inst, ok, detail in cur.findings:
-        key = (rule, inst.loc, inst.name)
+        key = (rule, inst.loc, inst.name, ok)
         if key in seen:
             continue
         seen.add(key)
         chk.ob(rule, "hex_get_byte %s %s" % (inst.op, inst.name or ""), ok, detail, inst.loc, fn.name)
     chk.expect("H1", "byte loads in hex_get_byte", cur.n_loads, 6)
-    chk.expect("H1", "strchr scans in hex_get_byte", cur.n_advances, 2)
-    # H2: return protocol, per incoming edge of the returned value
+    chk.expect("H1", "scans (strchr/strspn) in hex_get_byte", cur.n_advances, 2)
+    # H2: return protocol, per incoming edge of the returned value and per partition
     for blk in fn.order:
         t = blk.term
         if t.op != "ret":
@@ -317,48 +380,61 @@ def check_get_byte(chk, m):
         else:
             cases.append((rv, None))
         for v, pred in cases:
-            if pred is not None:
-                S = cur.transfer(pred, IN.get(pred.name, set()), False)
-                for sname, states in cur.edge_states(pred, S).items():
-                    if sname == blk.name:
-                        S = states[0]
-            else:
-                S = cur.transfer(blk, IN.get(blk.name, set()), False)
-            where = "edge %s->return" % (pred.name.lstrip("%") if pred else blk.name)
-            if v.is_const_int() and v.sval == -1:
-                pv = [f for f in S if f[0] == "pval"]
-                ok = bool(pv) and pv[0][2] == 0 and ("null", pv[0][1]) in S
-                chk.ob("H2.end-protocol", where, ok,
-                       "-1 is returned with *p == NULL on this path (so every later call keeps returning -1); cursor cell holds %s"
-                       % (str(pv[0][1:]) if pv else "an unknown value"), t.loc, fn.name)
-            else:
-                pv = [f for f in S if f[0] == "pval"]
-                # value: 16*nibble(b0) | nibble(b1) with b0,b1 at cursor-2, cursor-1
-                ok_store = bool(pv) and ("instr", pv[0][1], pv[0][2]) in S
-                chk.ob("H2.success-cursor", where, ok_store,
-                       "success stores a cursor inside the string (%s)" % (str(pv[0][1:]) if pv else "none stored"), t.loc, fn.name)
-                i = v.inst
-                shape = False
-                detail = "returned value is not 16*nibble(s[0]) | nibble(s[1])"
-                if i is not None and i.op in ("or", "add"):
-                    hi, lo = i.ops
-                    hi_i = hi.inst
-                    if hi_i is not None and hi_i.op in ("mul", "shl"):
-                        k = [o for o in hi_i.ops if o.is_const_int()]
-                        call = [o for o in hi_i.ops if not o.is_const_int()]
-                        scale = (k[0].uval if hi_i.op == "mul" else 1 << k[0].uval) if k else None
-                        c1 = call[0].inst if call else None
-                        c2 = lo.inst
-                        if scale == 16 and c1 is not None and c2 is not None and c1.op == "call" and c2.op == "call" \
-                                and c1.callee == c2.callee:
-                            b1, b2 = byte_of(c1.args[0]), byte_of(c2.args[0])
-                            if b1 is not None and b2 is not None and pv:
-                                k1, k2 = pkey(b1.ops[0], m), pkey(b2.ops[0], m)
-                                want1, want2 = (pv[0][1], pv[0][2] - 2), (pv[0][1], pv[0][2] - 1)
-                                shape = k1 == want1 and k2 == want2
-                                detail = "returns 16*%s(byte at %s%+d) | %s(byte at %s%+d); cursor stored just past the pair: %s" % (
-                                    c1.callee, k1[0], k1[1], c2.callee, k2[0], k2[1], shape)
-                chk.ob("H2.pair-value", where, shape, detail, t.loc, fn.name)
+            for part in (True, False):
+                src = pred if pred is not None else blk
+                if (src.name, part) not in IN:
+                    continue
+                S = cur.transfer(src, IN[(src.name, part)], False)
+                if pred is not None:
+                    found = None
+                    for sname, states in cur.edge_states(pred, S).items():
+                        if sname == blk.name and states:
+                            found = states[0]
+                    if found is None:
+                        continue
+                    S = found
+                check_return_edge(chk, m, fn, t, v, pred, blk, part, S)
+
+
+def check_return_edge(chk, m, fn, t, v, pred, blk, part, S):
+    where = "edge %s->return%s" % ((pred.name.lstrip("%") if pred else blk.name), "" if part else " (newline crossed)")
+    pv = [f for f in S if f[0] == "pval"]
+    if v.is_const_int() and v.sval == -1:
+        ok = bool(pv) and pv[0][2] == 0 and ("null", pv[0][1]) in S
+        chk.ob("H2.end-protocol", where, ok,
+               "-1 is returned with *p == NULL on this path (so every later call keeps returning -1); cursor cell holds %s"
+               % (str(pv[0][1:]) if pv else "an unknown value"), t.loc, fn.name)
+        return
+    ok_store = bool(pv) and ("instr", pv[0][1], pv[0][2]) in S
+    chk.ob("H2.success-cursor", where, ok_store,
+           "success stores a cursor inside the string (%s)" % (str(pv[0][1:]) if pv else "none stored"), t.loc, fn.name)
+    i = v.inst
+    shape = False
+    detail = "returned value is not 16*nibble(s[0]) | nibble(s[1])"
+    if i is not None and i.op in ("or", "add"):
+        hi, lo = i.ops
+        hi_i = hi.inst
+        if hi_i is not None and hi_i.op in ("mul", "shl"):
+            k = [o for o in hi_i.ops if o.is_const_int()]
+            call = [o for o in hi_i.ops if not o.is_const_int()]
+            scale = (k[0].uval if hi_i.op == "mul" else 1 << k[0].uval) if k else None
+            c1 = call[0].inst if call else None
+            c2 = lo.inst
+            if scale == 16 and c1 is not None and c2 is not None and c1.op == "call" and c2.op == "call" and c1.callee == c2.callee:
+                b1, b2 = byte_of(c1.args[0]), byte_of(c2.args[0])
+                if b1 is not None and b2 is not None and pv:
+                    k1, k2 = pkey(b1.ops[0], m), pkey(b2.ops[0], m)
+                    want1, want2 = (pv[0][1], pv[0][2] - 2), (pv[0][1], pv[0][2] - 1)
+                    shape = k1 == want1 and k2 == want2
+                    detail = "returns 16*%s(byte at %s%+d) | %s(byte at %s%+d); cursor stored just past the pair: %s" % (
+                        c1.callee, k1[0], k1[1], c2.callee, k2[0], k2[1], shape)
+    chk.ob("H2.pair-value", where, shape, detail, t.loc, fn.name)
+    NL = ("no-nl",)
+    chk.ob("H2.line-prefix", where, NL in S,
+           "a byte is only parsed after the current line's 'address:' prefix has been looked for: every path that moves past a "
+           "newline re-runs the prefix skip before parsing digits" + ("" if NL in S else
+           " - here a path skips a newline and parses on, so the address digits of later lines are returned as data"),
+           t.loc, fn.name)
 
 
 # ---------------------------------------------------------------------------------------------
